@@ -46,16 +46,14 @@ impl<const N: usize> Context<N> {
         if nonce.is_empty() {
             return false;
         }
-        match self.nonce_cache.try_lock() {
-            Ok(mut set) => set.get(nonce).is_some(),
-            Err(_) => false,
-        }
+        let mut set = self.nonce_cache.lock().unwrap_or_else(|e| e.into_inner());
+        set.get(nonce).is_some()
     }
 
-    pub fn set_nonce(&self, nonce: [u8; N]) {
-        if let Ok(mut set) = self.nonce_cache.try_lock() {
-            set.insert(nonce, ());
-        }
+    /// Remember `nonce`; returns `false` if it was already present (an earlier or concurrent presentation)
+    pub fn set_nonce(&self, nonce: [u8; N]) -> bool {
+        let mut set = self.nonce_cache.lock().unwrap_or_else(|e| e.into_inner());
+        set.insert(nonce, ()).is_none()
     }
 }
 
@@ -227,7 +225,9 @@ impl<const N: usize> AEADCipherCodec<N> {
         };
         let length = header.get_u16() as usize;
         if _src.remaining() >= length + tag_size {
-            context.set_nonce(salt);
+            if !context.set_nonce(salt) {
+                bail!("detected repeated nonce salt {:?}", salt);
+            }
             let position = _src.position();
             let src = _src.into_inner();
             src.advance(position as usize);
